@@ -91,7 +91,7 @@ void h_crc_buf(void)
 size_t vg_ao, vg_Y;
 /* bounded, plain route (real code unwound, independent of the loop anchors): same statement for buffers of <= 6 bytes
    against the REF fold of the ORIGINAL bytes. */
-uint8_t vg_in_ab[6];
+uint8_t vg_in_ab[6], vg_wb[6];
 size_t vg_in_an, vg_in_ao;
 void h_crc_alias_bounded(void)
 {
@@ -102,8 +102,9 @@ void h_crc_alias_bounded(void)
 	__CPROVER_assume(vg_in_an <= 6 && vg_in_ao <= vg_in_an && vg_in_an - vg_in_ao >= 2);
 	r = (uint16_t) (vg_in_ab[vg_in_ao] | (vg_in_ab[vg_in_ao + 1] << 8));   /* little-endian host, as the library assumes nothing else here */
 	for (k = 0; k < 6; k++) if (k < vg_in_an) r = REF(r, vg_in_ab[k]);
-	lha_crc16_buf((uint16_t *) (vg_in_ab + vg_in_ao), vg_in_ab, vg_in_an);
-	__CPROVER_assert(*(uint16_t *) (vg_in_ab + vg_in_ao) == r, "C17 aliased (bounded n<=6): crc field inside the buffer holds the REF fold of the original bytes");
+	for (k = 0; k < 6; k++) vg_wb[k] = vg_in_ab[k];        /* vg_in_ab keeps the input for the replay machinery */
+	lha_crc16_buf((uint16_t *) (vg_wb + vg_in_ao), vg_wb, vg_in_an);
+	__CPROVER_assert(*(uint16_t *) (vg_wb + vg_in_ao) == r, "C17 aliased (bounded n<=6): crc field inside the buffer holds the REF fold of the original bytes");
 	VG_CANARY("crc_alias_bounded end");
 }
 
